@@ -227,7 +227,37 @@ def legacy_read_only(prog, rep, fi):
     rep.floor("calls on the legacy store object", n, 2)
     if "aw_datastore.storages.peewee.PeeweeStorage.delete_bucket" not in writers:
         rep.error("writer computation lost PeeweeStorage.delete_bucket (LEGACY-RO would pass vacuously)")
-    rep.note("opening the legacy store runs PeeweeStorage.__init__ (CREATE TABLE IF NOT EXISTS + auto_migrate): byte-level immutability of the legacy file is not decided")
+    # opening the legacy store: schema statements only, no statement that rewrites rows
+    from ..sqlmodel import fold_str
+
+    init = prog.func("PeeweeStorage.__init__")
+    seen, work = set(), [init]
+    while work:
+        f = work.pop()
+        if f.qname in seen:
+            continue
+        seen.add(f.qname)
+        for g_ in edges.get(f, ()):
+            if g_.mod is init.mod:
+                work.append(g_)
+    n_open = 0
+    for q in sorted(seen):
+        f = prog.funcs[q]
+        for c in walk_with_nested_exprs(f.node):
+            if not (isinstance(c, ast.Call) and isinstance(c.func, ast.Attribute)):
+                continue
+            a = c.func.attr
+            if a == "execute_sql" and c.args:
+                n_open += 1
+                txt = fold_str(c.args[0], f, prog)
+                head = (txt or "").strip().split(" ")[0].upper() if txt else None
+                if head is None:
+                    rep.undecided("LEGACY-RO", f.short, "execute_sql(...)", "SQL text run while opening the legacy store is not a compile-time string", f.loc(c))
+                else:
+                    rep.check(head in ("PRAGMA", "SELECT"), "LEGACY-RO", f.short, f"execute_sql({head} ...)", "reads only", f"opening the legacy store runs `{txt.strip()[:80]}`: rows of the legacy database are rewritten by the migration's mere act of opening it (the legacy file is not left untouched)", f.loc(c))
+            elif a in ("save", "delete_instance", "create", "insert", "insert_many", "update", "replace", "bulk_create", "bulk_update") and not (isinstance(c.func.value, ast.Name) and c.func.value.id in ("self",)) and f is not init:
+                rep.violation("LEGACY-RO", f.short, f".{a}()", f"`{norm(c)[:60]}` runs while the legacy store is being opened and writes rows", f.loc(c))
+    rep.note("opening the legacy store runs PeeweeStorage.__init__ (CREATE TABLE IF NOT EXISTS + auto_migrate's add_column for pre-datastr files): byte-level immutability of the legacy file is decided only up to those schema statements")
 
 
 def fold(e, env, prog, fi):
@@ -436,6 +466,7 @@ VARIANTS = [
     ("B migration for custom paths too", SQ, "        if new_db_file and not ignore_migration_check:", "        if new_db_file:", "TRIGGER"),
     ("B events fetched with a stale loop variable", MG, "        bucket_events = pw_db.get_events(bucket_id, -1)", "        pass\n    for bucket in buckets.values():\n        bucket_events = pw_db.get_events(bucket_id, -1)", "VISIT-ALL"),
     ("B sqlite bulk insert drops the days of a duration", SQ, "            endtime = starttime + (event.duration.total_seconds() * 1000000)\n            datastr = json.dumps(event.data)\n            event_rows.append", "            endtime = starttime + (event.duration.seconds * 1000000)\n            datastr = json.dumps(event.data)\n            event_rows.append", "CODEC"),
+    ("B opening the legacy store normalises NULL datastr in place", "aw_datastore/storages/peewee.py", "    db.close()\n", "    db.execute_sql(\"UPDATE bucketmodel SET datastr = '{}' WHERE datastr IS NULL\")\n    db.close()\n", "LEGACY-RO"),
     ("OK buckets created first, events copied in a second loop", MG, "        bucket_events = pw_db.get_events(bucket_id, -1)", "        pass\n    for bucket_id in buckets:\n        bucket_events = pw_db.get_events(bucket_id, -1)", "ok"),
     ("OK ids cleared by rebuilding events", MG, "        for event in bucket_events:\n            event.id = None\n        datastore.insert_many(bucket_id, bucket_events)", "        fresh = [Event(timestamp=e.timestamp, duration=e.duration, data=e.data) for e in bucket_events]\n        datastore.insert_many(bucket_id, fresh)", "ok"),
     ("OK keyword arguments", MG, '            bucket["name"],\n            bucket["data"],\n', '            name=bucket["name"],\n            data=bucket["data"],\n', "ok"),
